@@ -489,7 +489,7 @@ pub fn run(ctx: &mut Ctx) {
     let pools: Vec<usize> = if let Some(t) = replay_threads { vec![t] } else if ctx.tier_thorough { vec![1, 2, 3, 4, 6, 8, 12, 16] } else { vec![1, 2, 4, 16] };
     let mut children = vec![];
     for &t in &pools {
-        let dir = format!("/verif/work/C03/child{t}");
+        let dir = format!("{}/child{t}", ctx.dir);
         let mut cmd = std::process::Command::new(&exe);
         cmd.arg(if ctx.replay_only.is_some() { "replay" } else { "run" }).arg("C03child").args(["--seed", &ctx.seed.to_string(), "--tier", if ctx.tier_thorough { "thorough" } else { "quick" }, "--dir", &dir]);
         if let Some(c) = &ctx.replay_only {
